@@ -86,6 +86,24 @@ class Interp:
                 i = LastIndexOf(x, StringVal("."))
                 return If(i < 0, StringVal(""), SubString(x, 0, i))
             raise Unsupported(ast.dump(n))
+        # x.rstrip(y) / x.lstrip(y) / x.strip(y): uninterpreted result constrained at the boundary characters -- enough for every model
+        # in which the result differs from x to reproduce concretely (the boundary character really is in the strip set)
+        if isinstance(n.func, ast.Attribute) and n.func.attr in ("rstrip", "lstrip", "strip") and len(n.args) <= 1:
+            x = self.s(self.ev(n.func.value))
+            y = self.s(self.ev(n.args[0])) if n.args else StringVal(" \t\n\r\x0b\x0c")
+            self.nfresh = getattr(self, "nfresh", 0) + 1
+            r = String("%s_result_%d" % (n.func.attr, self.nfresh))
+            last = SubString(x, Length(x) - 1, 1)
+            first = SubString(x, 0, 1)
+            cons = []
+            if n.func.attr in ("rstrip", "strip"):
+                cons.append(If(Or(Length(x) == 0, Not(Contains(y, last))), True, Length(r) < Length(x)))
+            if n.func.attr in ("lstrip", "strip"):
+                cons.append(If(Or(Length(x) == 0, Not(Contains(y, first))), True, Length(r) < Length(x)))
+            unchanged = And(*[Or(Length(x) == 0, Not(Contains(y, c_))) for c_ in ([last] if n.func.attr == "rstrip" else [first] if n.func.attr == "lstrip" else [first, last])])
+            cons.append(If(unchanged, r == x, Contains(x, r)))
+            self.side = getattr(self, "side", []) + cons
+            return r
         args = [self.ev(a) for a in n.args]
         if fn == "os.path.isdir": return self.isdir(self.s(args[0]))
         if fn == "os.path.relpath": return ("relpath", self.s(args[0]), self.s(args[1]))  # resolved by harness contract below
@@ -201,6 +219,7 @@ def names_query(mode):
     s = Solver()
     s.set("timeout", 120000)
     s.add(wf, Or(Not(pc_d), title != spec_title, module != spec_mod, f_ != file))
+    s.add(*getattr(it, "side", []))
     return s, dict(v, title=title, module=module, spec_title=spec_title, spec_mod=spec_mod, file=file, obs=[o[1] for o in it.obs])
 
 
